@@ -238,22 +238,35 @@ def r20_3(run):
             run.ob('R20.3', up, c, 'the timer calls _expire', len(c.args) >= 2 and dotted(c.args[1]) == 'self._expire', slot='timer-callback', message='callLater(..., %s)' % (src(c.args[1]) if len(c.args) > 1 else ''))
             okr = any(isinstance(n, ast.Assign) and assign_to(n, 'self.expiry') is not None and any(x is c for x in ast.walk(n.value)) for n in walk_unit(up))
             run.ob('R20.3', up, c, 'the pending timer is remembered (self.expiry)', okr, slot='timer-kept', message='callLater result not stored in self.expiry')
-    # move = new expiry - old expiry
+    # re-timing: the pending timer is re-armed for (new expiry - now), not shifted by (new - old expiry) - the pending timer
+    # need not stand at the old expiry (a mapping that arrived already expired was armed for "now")
     for c in calls_in(up):
         if dotted(c.func) == 'self.expiry.delay':
-            a = c.args[0]
-            nm = [x.id for x in ast.walk(a) if isinstance(x, ast.Name)]
-            oldn = [n.targets[0].id for n in walk_unit(up) if isinstance(n, ast.Assign) and isinstance(n.targets[0], ast.Name) and dotted(n.value) == 'self.expires']
-            okd = bool(nm) and bool(oldn)
-            for n_ in nm:
-                for cn in g.nodes_containing(c):
-                    vals = [def_value(r, n_) for r in reaching_defs(g, cn, n_)]
-                    if not vals or not all(v is not None and src(v).replace(' ', '') == 'self.expires-%s' % oldn[0] for v in vals):
-                        okd = False
-            run.ob('R20.3', up, c, 'the timer is moved by (new expiry - old expiry)', okd, slot='delay-amount', message='expiry.delay(%s)' % src(a))
+            run.ob('R20.3', up, c, 'a re-timed mapping expires at its new expiry time', False, slot='retime-relative-to-old',
+                   message='Addr.update shifts the pending timer by %s: if that timer was not standing at the old expiry (the first mapping had already expired and '
+                           'was armed for "now") the mapping outlives its new expiry by the difference' % src(c.args[0] if c.args else c)[:40])
+        if dotted(c.func) == 'self.expiry.reset':
+            a = c.args[0] if c.args else None
+            roots = [a] if a is not None else []
+            for x in (ast.walk(a) if a is not None else []):
+                if isinstance(x, ast.Name):
+                    for cn in g.nodes_containing(c):
+                        roots += [def_value(r, x.id) for r in reaching_defs(g, cn, x.id) if def_value(r, x.id) is not None]
+            txt = ' '.join(src(r_).replace(' ', '') for r_ in roots)
+            okr = 'self.expires-self.created' in txt
+            run.ob('R20.3', up, c, 'a re-timed mapping is re-armed for (new expiry - now)', okr, slot='retime-amount', message='expiry.reset(%s)' % (src(a) if a is not None else ''))
     # "now" (self.created) is taken afresh in every call before it is used to compute a delay
     cr = [n for n in g.real_nodes() if n.kind == 'stmt' and assign_to(n.ast, 'self.created') is not None]
     okc = bool(cr) and all('utcnow()' in src(assign_to(n.ast, 'self.created')) or 'now(' in src(assign_to(n.ast, 'self.created')) for n in cr)
+    # ... in UTC, like the EXPIRES time it is subtracted from (Tor reports GMT): utcnow(), or now(<utc tzinfo>) - never the naive local now()
+    for n in cr:
+        v = assign_to(n.ast, 'self.created')
+        calls = [c for c in ast.walk(v) if isinstance(c, ast.Call) and callee_attr(c) in ('now', 'utcnow', 'today')]
+        for c in calls:
+            utc = bool(callee_attr(c) == 'utcnow' or (callee_attr(c) == 'now' and (c.args or c.keywords) and 'utc' in src(c).lower()))
+            run.ob('R20.3', up, c, 'the current time is taken in UTC', utc, slot='now-in-utc',
+                   message='Addr.update reads the clock with %s (local time) and subtracts it from Tor\'s GMT expiry: on a host that is not on UTC every new timer is off by '
+                           'the zone offset' % src(c))
     sched = g.nodes_where(lambda n: any(isinstance(a, ast.Call) and callee_attr(a) == 'callLater' for a in node_asts(n)))
     okc = okc and all(any(g.dominates(c_, s_) for c_ in cr) for s_ in sched)
     run.ob('R20.3', up, up.node, 'the current time used for a new timer is read in this very update', okc, slot='fresh-now',
@@ -283,6 +296,15 @@ def r20_4(run):
         run.paths_enumerated += 1
         k = sum(1 for n, _ in p.steps if n in ad)
         run.ob('R20.4', up, up.node, 'at most one "added" per event', k <= 1, slot='added-once', message='%d addrmap_added on one path' % k)
+        # exactly one for a new name, whatever kind of mapping it is (timed, NEVER, failed): the new-name leg always announces
+        newleg = [b for n, b in p.took(lambda t: isinstance(t, ast.Compare) and isinstance(t.ops[0], (ast.In, ast.NotIn)) and dotted(t.comparators[0]) == 'self.addr')
+                  if True]
+        tests_ = [(n, lab) for n, lab in p.steps if n.kind == 'test' and isinstance(n.ast, ast.Compare) and isinstance(n.ast.ops[0], (ast.In, ast.NotIn))
+                  and dotted(n.ast.comparators[0]) == 'self.addr']
+        is_new = any((lab == 'F') == isinstance(n.ast.ops[0], ast.In) for n, lab in tests_)
+        if is_new and p.exit != 'raise':
+            run.ob('R20.4', up, up.node, 'a new name is always announced with "added"', k == 1, slot='added-always-for-new',
+                   message='AddrMap.update can finish the new-name leg without addrmap_added (%s): e.g. a name whose first mapping never expires is stored but never announced' % p.describe(6))
     for u in run.idx.all_units():
         for c in calls_in(u):
             if callee_attr(c) == 'notify' and c.args and const(c.args[0]) == 'addrmap_expired':
@@ -351,22 +373,26 @@ RULES = [
 from ..selftest import M  # noqa: E402
 F = 'txtorcon/addrmap.py'
 MUTANTS = [
+    M('local-now', F, "        self.created = datetime.datetime.utcnow()", "        self.created = datetime.datetime.now()", ['R20.3']),
+    M('added-only-with-timer', F, "            a.update(*params)\n            self.notify(\"addrmap_added\", *[a], **{})", "            a.update(*params)\n            if a.expiry is not None:\n                self.notify(\"addrmap_added\", *[a], **{})", ['R20.4']),
     M('cached-no-ignored', F, "            a = self.addr[params[0]]\n", "            a = self.addr[params[0]]\n            if a.expires is None and len(params) > 3:\n                return\n", ['R20.5']),
     M('lookup-by-address', F, "            a = self.addr[params[0]]\n", "            a = self.addr[params[1]]\n", ['R20.2']),
     M('stale-filter-inverted', F, "if v is a and k != params[0]]:", "if v is not a and k != params[0]]:", ['R20.2']),
     M('rekey-after-update', F, "            self.addr[params[1]] = a\n            a.update(*params)\n\n        else:", "            a.update(*params)\n            self.addr[params[1]] = a\n\n        else:", ['R20.5']),
-    M('seconds-again', F, "self.expiry.delay(diff.total_seconds())", "self.expiry.delay(diff.seconds)", ['R20.1']),
+    M('seconds-again', F, "self.expiry.reset(max(0, diff.total_seconds()))", "self.expiry.reset(max(0, diff.seconds))", ['R20.1']),
+    M('retime-by-difference', F, "                diff = self.expires - self.created\n                self.expiry.reset(max(0, diff.total_seconds()))", "                diff = self.expires - oldexpires\n                self.expiry.delay(diff.total_seconds())", ['R20.3']),
     M('calllater-seconds', F, "callLater(diff.total_seconds(),", "callLater(diff.seconds,", ['R20.1']),
     M('expire-name-only', F, "        for k in [k for (k, v) in self.map.addr.items() if v is self]:\n            del self.map.addr[k]", "        del self.map.addr[self.name]", ['R20.2']),
     M('update-keeps-old-address', F, "            for k in [k for (k, v) in self.addr.items() if v is a and k != params[0]]:\n                del self.addr[k]\n", "", ['R20.2']),
     M('update-no-new-address', F, "                del self.addr[k]\n            self.addr[params[1]] = a\n", "                del self.addr[k]\n", ['R20.2']),
     M('never-keeps-timer', F, "        if self.expires is None:\n            # a permanent mapping: a timer from an earlier, timed\n            # mapping must not remove it\n            self._cancel_expiry()\n\n        else:", "        if self.expires is not None:", ['R20.3']),
     M('expire-keeps-timer', F, "        callback done via callLater\n        \"\"\"\n        self._cancel_expiry()\n", "        callback done via callLater\n        \"\"\"\n", ['R20.3']),
-    M('second-timer', F, "                diff = self.expires - oldexpires\n                self.expiry.delay(diff.total_seconds())", "                diff = self.expires - self.created\n                self.expiry = self.map.scheduler.callLater(diff.total_seconds(), self._expire)", ['R20.3']),
-    M('delay-from-created', F, "                diff = self.expires - oldexpires\n", "                diff = self.expires - self.created\n", ['R20.3']),
+    M('second-timer', F, "                self.expiry.reset(max(0, diff.total_seconds()))", "                self.expiry = self.map.scheduler.callLater(diff.total_seconds(), self._expire)", ['R20.3']),
+    M('reset-from-old-expiry', F, "                diff = self.expires - self.created\n                self.expiry.reset(", "                diff = self.expires - oldexpires\n                self.expiry.reset(", ['R20.3']),
     M('added-always', F, "            a.update(*params)\n            self.notify(\"addrmap_added\", *[a], **{})", "            a.update(*params)\n        self.notify(\"addrmap_added\", *[self.addr.get(params[0])], **{})", ['R20.4']),
 ]
 TWINS = [
-    M('days-and-seconds', F, "self.expiry.delay(diff.total_seconds())", "self.expiry.delay(diff.days * 86400 + diff.seconds)"),
+    M('aware-utc-now', F, "        self.created = datetime.datetime.utcnow()", "        self.created = datetime.datetime.now(datetime.timezone.utc).replace(tzinfo=None)"),
+    M('days-and-seconds', F, "self.expiry.reset(max(0, diff.total_seconds()))", "self.expiry.reset(max(0, diff.days * 86400 + diff.seconds))"),
     M('cancel-inline', F, "        if self.expires is None:\n            # a permanent mapping: a timer from an earlier, timed\n            # mapping must not remove it\n            self._cancel_expiry()\n", "        if self.expires is None:\n            if self.expiry is not None and self.expiry.active():\n                self.expiry.cancel()\n            self.expiry = None\n"),
 ]
